@@ -1,6 +1,9 @@
 import ModbusVerif.Driver.Wire
 import ModbusVerif.Spec.Request
 import ModbusVerif.Spec.Layout
+import ModbusVerif.Spec.ServerSpec
+import ModbusVerif.Model.Config
+import ModbusVerif.Model.Timing
 /-
   mbmodel: line protocol. One operation per input line, one canonical output line.
   Unknown or malformed lines print `bad-op` (never a default).
@@ -65,6 +68,31 @@ def showEvents (l : List Server.Event) : String := ";".intercalate (l.map showEv
 def cfgOf (kind unit e w : String) : Option Client.Cfg := do
   pure { kind := ← kindOfName kind, unitId := BitVec.ofNat 8 (← unit.toNat?),
          endian := endianOfNat (← e.toNat?), word := wordOfNat (← w.toNat?) }
+
+/-- the property oracle of C03: frames are cut out of the stream by the MBAP reader, each complete
+    frame must produce `Spec.serverEvents` -/
+def specRunAux {σ : Type} (h : Server.Handler σ) : Nat → σ → Bytes → Ending → List Server.Event
+  | 0, _, _, _ => [.ended .ioOther]
+  | fuel+1, st, s, e =>
+    match Mbap.readFrame s e with
+    | (.err err, _) => [.ended err]
+    | (.ok req txn, rest) =>
+      let x := Spec.serverEvents h st txn req
+      if Spec.staysOpen req then x.2 ++ specRunAux h fuel x.1 rest e else x.2
+
+def utf8OfHex (s : String) : Option String :=
+  match unhex s with
+  | some bs => String.fromUTF8? (ByteArray.mk (bs.map (fun b => b.toNat.toUInt8)).toArray)
+  | none => none
+
+def kindName : Client.Kind → String
+  | .rtu => "rtu" | .rtuOverTcp => "rtuovertcp" | .rtuOverUdp => "rtuoverudp"
+  | .tcp => "tcp" | .tcpTls => "tcp+tls" | .udp => "udp"
+
+def endianNum : Endian → Nat | .big => 1 | .little => 2 | .invalid => 0
+def wordNum : WordOrder → Nat | .highFirst => 1 | .lowFirst => 2 | .invalid => 0
+
+def strHex (s : String) : String := hex (s.toUTF8.toList.map (fun b => BitVec.ofNat 8 b.toNat))
 
 def step (line : String) : String :=
   match line.trimAscii.toString.splitOn " " with
@@ -144,6 +172,47 @@ def step (line : String) : String :=
         (List.range 256).foldl (fun acc b =>
           (acc * 1000003 + (Crc.step (BitVec.ofNat 16 (lo + i)) (BitVec.ofNat 8 b)).toNat) % 2305843009213693951) acc) 7
       toString d
+    | _, _ => "bad-op"
+  | ["srvspec", script, ending, stream] =>
+    match (script.splitOn ",").mapM parseBeh, endingOfName ending, unhex stream with
+    | some sc, some en, some s =>
+      if sc.isEmpty then "bad-op" else showEvents (specRunAux (scripted sc) (s.length + 1) 0 s en)
+    | _, _, _ => "bad-op"
+  | ["newclient", url, speed, db, par, sb, tmo, cert, roots] =>
+    match utf8OfHex url, speed.toNat?, db.toNat?, par.toNat?, sb.toNat?, tmo.toNat? with
+    | some u, some sp, some d, some pa, some st, some t =>
+      match Config.newClient { url := u, speed := sp, dataBits := d, parity := pa, stopBits := st, timeoutNs := t,
+                               hasCert := cert = "1", hasRoots := roots = "1" } with
+      | .error e => "err:" ++ errName e
+      | .ok c =>
+        let w := Config.openWiring c.kind
+        s!"ok kind={kindName c.kind} url={strHex c.url} speed={c.speed} databits={c.dataBits} parity={c.parity} stopbits={c.stopBits} timeout={c.timeoutNs} unit={c.unitId.toNat} e={endianNum c.endian} w={wordNum c.word} socket={w.1.name} framing={w.2.1.name}"
+    | _, _, _, _, _, _ => "bad-op"
+  | ["newserver", url, tmo, maxc, cert, cas] =>
+    match utf8OfHex url, tmo.toNat?, maxc.toNat? with
+    | some u, some t, some m =>
+      match Config.newServer { url := u, timeoutNs := t, maxClients := m, hasCert := cert = "1", hasCAs := cas = "1" } with
+      | .error e => "err:" ++ errName e
+      | .ok c => s!"ok tls={if c.tls then 1 else 0} url={strHex c.url} timeout={c.timeoutNs} maxclients={c.maxClients}"
+    | _, _, _ => "bad-op"
+  | ["setenc", e0, w0, e, w] =>
+    match e0.toNat?, w0.toNat?, e.toNat?, w.toNat? with
+    | some e0, some w0, some e, some w =>
+      let st : Config.ClientState := { kind := .tcp, url := "", speed := 0, dataBits := 0, parity := 0, stopBits := 0,
+                                       timeoutNs := 0, endian := endianOfNat e0, word := wordOfNat w0 }
+      match Config.setEncoding st e w with
+      | .error er => s!"err:{errName er} e={e0} w={w0}"
+      | .ok c => s!"ok e={endianNum c.endian} w={wordNum c.word}"
+    | _, _, _, _ => "bad-op"
+  | ["timing", rate] =>
+    match rate.toNat? with
+    | some r => s!"{Timing.charTime r} {Timing.t35 r}"
+    | none => "bad-op"
+  | ["timingdigest", lo, hi] =>
+    match lo.toNat?, hi.toNat? with
+    | some lo, some hi =>
+      toString ((List.range (hi - lo)).foldl (fun acc i =>
+        ((acc * 1000003 + Timing.charTime (lo + i)) % 2305843009213693951 * 1000003 + Timing.t35 (lo + i)) % 2305843009213693951) 7)
     | _, _ => "bad-op"
   | ["crc", data] =>
     match unhex data with
